@@ -176,8 +176,9 @@ pub fn single_corruption() -> BoxedStrategy<Req> {
         1 => prop::sample::select(vec![511usize, 512, 513, 600, 767, 769, 1023, 1025, 1100]),
         1 => 40usize..600,
     ];
-    (sizes, any::<usize>(), 0usize..14, 0u8..8, any::<usize>(), any::<bool>()).prop_map(move |(n, start, pos, kind, bit, permute)| {
-        let mut v: Vec<Entry> = (0..n).map(|k| honest_pool()[(start % np + k) % np].clone()).collect();
+    (sizes, any::<usize>(), 0usize..14, 0u8..8, any::<usize>(), 0u8..8).prop_map(move |(n, start, pos, kind, bit, permute)| {
+        // one time in eight the batch is n copies of the same entry (duplicates are allowed)
+        let mut v: Vec<Entry> = (0..n).map(|k| honest_pool()[(start % np + if permute == 0 { 0 } else { k }) % np].clone()).collect();
         let i = match pos {
             0 => 0,
             1 => n - 1,
